@@ -230,6 +230,7 @@ def behaviour_to_job(beh, kind, B, jid, lc=3, lp=0, pb=2):
     script, chunks, cur = [], [], None
     bad = None
     need_props, after_raw, nl = True, False, 0
+    reps, nm = [0, 0, 0, 0], 0
     for h in beh:
         t = h[0]
         if t == "read":
@@ -238,7 +239,16 @@ def behaviour_to_job(beh, kind, B, jid, lc=3, lp=0, pb=2):
         elif t == "lit":
             (cur["syms"] if cur is not None else script).append(["lit", _LIT_BYTE(h[1])])
         elif t == "match":
-            (cur["syms"] if cur is not None else script).append(["match", h[1], h[2]])
+            # the ring does not care whether a distance is coded as a normal match or as a repeated match: use the
+            # rep coding for every second match whose distance is among the four most recent ones (symbol variety)
+            nm += 1
+            if h[1] in reps and nm % 2 == 0:
+                i = reps.index(h[1])
+                (cur["syms"] if cur is not None else script).append(["rep", i, h[2]])
+                reps.insert(0, reps.pop(i))
+            else:
+                (cur["syms"] if cur is not None else script).append(["match", h[1], h[2]])
+                reps = [h[1]] + reps[:3]
         elif t == "bad":
             (cur["syms"] if cur is not None else script).append(["match", h[1], 2])
             bad = h[1]
@@ -257,6 +267,8 @@ def behaviour_to_job(beh, kind, B, jid, lc=3, lp=0, pb=2):
                 cur = {"t": "lzma", "syms": [], "dict_reset": reset, "new_props": (not reset) and need_props,
                        "state_reset": after_raw or nl % 2 == 0}
                 chunks.append(cur)
+                if cur["dict_reset"] or cur["new_props"] or cur["state_reset"]:
+                    reps = [0, 0, 0, 0]
                 need_props, after_raw = False, False
     return reads, expect, script, chunks, bad
 
@@ -389,3 +401,68 @@ def validate_lzdecoder(ctx, runs, name=""):
             res["reached"] = len(r.trace) - 2
             res["next_event"] = lines[res["reached"]] if 0 <= res["reached"] < len(lines) else None
     return res
+
+
+# --------------------------------------------------------------------------- self test (used for mutation testing)
+def selftest(n=12, seed=1):
+    """Round trips with symbol events on the current (or VERIF_REPO) tree, validated by Trace_LzmaSymbols and
+    Trace_LzDecoder, plus a strict LzDecoder replay. Prints a verdict per oracle; returns the number of rejections.
+    Not a registered check: the properties that use these oracles (C01, C07, C16) call the functions above."""
+    import random
+    rnd = random.Random(seed)
+    jobs = []
+    for i in range(n):
+        fmt = rnd.choice(["lzma", "lzma2"])
+        jobs.append(roundtrip_job(f"t{i}", fmt, {"preset": rnd.choice([0, 1, 4, 6, 9]), "dict": 65536},
+                                  {"class": rnd.choice(["text", "mixed", "periodic", "lowent", "repeat_far"]), "len": rnd.choice([500, 3000, 9000]),
+                                   "seed": rnd.randrange(1 << 30)}, reads=rnd.choice([[4096], [1], [7, 0, 300]])))
+    res = run_sym_jobs(jobs)
+    bad = 0
+    for j, r in zip(jobs, res):
+        if r.get("enc") != "ok" or r.get("dec") != "ok" or not r.get("equal"):
+            print(f"ROUNDTRIP-ORACLE fails on {j['id']}: enc={r.get('enc')} dec={r.get('dec')} equal={r.get('equal')} {r.get('kind','')} {r.get('msg','')}")
+            bad += 1
+        elif not rc_counters_equal(r):
+            print(f"BYTE-ACCOUNTING fails on {j['id']}: {r.get('enc_counters')} {r.get('dec_counters')}")
+            bad += 1
+    runs = [r["events"] for r in res if r.get("events")]
+    v = validate_symbols(None, runs, "selftest")
+    print("SYMBOLS", "accepted" if v["accepted"] else f"REJECTED run {v['bad_run']} after event {v['reached']}/{v['total']}: "
+          f"divergence={v['divergence']} conform_only={v['conform_only']} next={v.get('next_event')}")
+    bad += 0 if v["accepted"] else 1
+    lv = validate_lzdecoder(None, runs, "selftest")
+    print("LZDECODER-TRACE", "accepted" if lv["accepted"] else f"REJECTED after event {lv['reached']}/{lv['total']}: {lv.get('next_event')} {lv.get('state')}")
+    bad += 0 if lv["accepted"] else 1
+
+    class Ctx:      # minimal stand-in collecting what lzdecoder_replay reports
+        def __init__(self):
+            self.v = []
+        def violation(self, what, sig, replay):
+            self.v.append(what)
+            return True
+        def note_tlc(self, *a):
+            pass
+    c = Ctx()
+    for name, kind, extra in (("lz2", "lzma2", {"B": "16", "MaxStream": "44", "AllowBad": "TRUE"}),
+                              ("lz1m", "lzma", {"B": "64", "MaxStream": "40", "AllowBad": "FALSE"})):
+        consts = {"Kind": f'"{kind}"', "ReadSizes": "{0,1,2,3,5,7,20,50}", "Lens": "{2,3,5,9,17,18}", "ChunkSizes": "{1,2,3,5,8,13,21}",
+                  "SizeKnown": "FALSE", "KeepHist": "TRUE"}
+        consts.update(extra)
+        st = lzdecoder_replay(c, kind, consts, 60, seed + 5, name=name)
+        st.pop("events_runs")
+        print("LZDECODER-REPLAY", name, st)
+    for w in c.v[:3]:
+        print("REPLAY-MISMATCH", w[:300])
+    bad += len(c.v)
+    core.clean_work()
+    return bad
+
+
+if __name__ == "__main__":
+    import sys
+    try:
+        sys.exit(1 if selftest() else 0)
+    except ToolError as e:
+        print("TOOL-ERROR:", str(e)[:2000])
+        core.clean_work()
+        sys.exit(2)
